@@ -323,6 +323,21 @@ impl Engine {
         }
     }
 
+    /// VERIF_ONLY=<substring> (sensitivity experiments only): run just the
+    /// campaigns whose name contains it; the evidence notes the restriction.
+    fn filtered_out(&self, name: &str) -> bool {
+        match std::env::var("VERIF_ONLY") {
+            Ok(f) if !f.is_empty() => {
+                let out = !name.contains(&f);
+                if out {
+                    self.note(format!("campaign {name} skipped (VERIF_ONLY={f})"));
+                }
+                out
+            }
+            _ => false,
+        }
+    }
+
     pub fn failed(&self) -> bool {
         !self.violations.lock().unwrap().is_empty()
     }
@@ -334,7 +349,13 @@ impl Engine {
     /// Record a defect of the harness itself (reference disagreement,
     /// unhealthy generator): exit 2, never a violation.
     pub fn harness_error(&self, s: impl Into<String>) {
-        self.harness_errors.lock().unwrap().push(s.into());
+        let s = s.into();
+        if s.contains("unhealthy") && std::env::var("VERIF_ONLY").map_or(false, |f| !f.is_empty()) {
+            // health floors refer to campaigns that the experiment filter skipped
+            self.note(format!("not enforced under VERIF_ONLY: {s}"));
+            return;
+        }
+        self.harness_errors.lock().unwrap().push(s);
     }
 
     /// Count cases that a generator left out by construction because they
@@ -448,7 +469,7 @@ impl Engine {
         F: Fn(&C, &Obs) -> CheckResult + Sync + Send + Clone + 'static,
     {
         self.register_replayer::<C, _>(name, check.clone());
-        if self.replay_only || self.failed() {
+        if self.replay_only || self.failed() || self.filtered_out(name) {
             return;
         }
         self.any_campaign.store(true, Ordering::Relaxed);
@@ -557,7 +578,7 @@ impl Engine {
         F: Fn(&C, &Obs) -> CheckResult + Sync + Send + Clone + 'static,
     {
         self.register_replayer::<C, _>(name, check.clone());
-        if self.replay_only || self.failed() {
+        if self.replay_only || self.failed() || self.filtered_out(name) {
             return;
         }
         self.any_campaign.store(true, Ordering::Relaxed);
@@ -658,7 +679,7 @@ impl Engine {
         F: Fn(&C, &Obs) -> CheckResult + Sync + Send + Clone + 'static,
     {
         self.register_replayer::<C, _>(name, check.clone());
-        if self.replay_only || self.failed() {
+        if self.replay_only || self.failed() || self.filtered_out(name) {
             return;
         }
         if cfg!(debug_assertions) {
